@@ -477,7 +477,10 @@ def emit_decoders(L, pkgpath, structs, methods, src, stats):
         L.append("  [C11] requires manager_installed: mgr != nil")
         L.append("  [C11] ensures terminates_without_panic: true")
         L.append("  modifies gItN, gItRaw, gItRes, gIriTaken")
-        L.append('  let A = (has(aliasMap, "%s") ? aliasMap["%s"] : "")' % (op["uri"], op["uri"]))
+        if op["uri"] is None:
+            L.append('  let A = ""')
+        else:
+            L.append('  let A = (has(aliasMap, "%s") ? aliasMap["%s"] : "")' % (op["uri"], op["uri"]))
         L.append('  let PN = (len(A) > 0 ? A + ":" + "%s" : "%s")' % (op["name"], op["name"]))
         if "langString" in op["range"]:
             L.append('  let PRESENT = (has(m, PN) || has(m, PN + "Map"))')
@@ -630,6 +633,8 @@ def load_ontoprops(repo):
                 ONTOPROPS[(impldir, "property_" + mm["name"].lower())] = dict(name=mm["name"], uri=uri, range=ontology.ref_names(mm.get("range")))
     # JSON-LD's own members carry no vocabulary alias
     ONTOPROPS[("jsonld", "property_id")] = dict(name="id", uri=None, range=["anyURI"])
+    # (the list-valued JSON-LD "type": names of types, or IRIs; its member name is fixed by JSON-LD, not by a vocabulary)
+    ONTOPROPS[("jsonld", "property_type")] = dict(name="type", uri=None, range=["anyURI", "string"])
 
 
 def main():
